@@ -12,6 +12,7 @@ package c13
 
 import (
 	"context"
+	"fmt"
 	"sort"
 	"strings"
 	"time"
@@ -74,7 +75,9 @@ type viewTrack struct {
 	deliveries        int
 	sendsBegun        int // event batches handed to the stream (deliveries counts the ones the receiver has taken)
 	lastDelivery      time.Time
-	toldRev           int64 // store revision up to which the registry has been told about the range (snapshot or delivered events)
+	toldRev           int64                      // store revision up to which the registry has been told about the range (snapshot or delivered events)
+	orphanWatch       bool                       // a watch stream on the range was opened while no subscriber of the harness was attached or attaching to it
+	oldWatchAlive     bool                       // a snapshot of the range was served while the watch goroutine of a cancelled stream of the range (one that had delivered events) was still running
 	valsOfKey         map[string]map[string]bool // every value ever delivered (event or snapshot) per key
 }
 
@@ -125,19 +128,32 @@ type store struct {
 	fc       faultCfg
 	getFail  int // Gets that will still fail
 
-	views   map[string]*viewTrack      // range key ("svc/") -> what the registry was told
-	ever    map[string]map[string]bool // prefix ("svc/") -> values ever registered under it
-	modRev  map[string]int64           // prefix -> revision of the last put/delete under it
+	views   map[string]*viewTrack      // range key ("svc/", or a full key for an exact-match range) -> what the registry was told
+	ever    map[string]map[string]bool // range key -> values ever registered under it
+	modRev  map[string]int64           // range key -> revision of the last put/delete under it
 	lastPut map[string]map[string]string
-	prefixs []string
+	ranges  []string // the ranges a subscriber of this run may watch: "name/" = every key with that prefix, anything else = exactly that key
+
+	getsBy   map[int]map[string]int // task id -> range key -> Gets of that range issued by the task
+	loadsBy  map[int]map[string]int // ... of which were answered with a snapshot
+	openSubs func(rangeKey string) int
 
 	nGets, nWatches int
 }
 
-func newStore(r *simrt.Run, prefixes []string) *store {
+// inRangeKey: does the key belong to the watched range (prefix range "name/" or exact key)?
+func inRangeKey(rangeKey, key string) bool {
+	if strings.HasSuffix(rangeKey, "/") {
+		return strings.HasPrefix(key, rangeKey)
+	}
+	return key == rangeKey
+}
+
+func newStore(r *simrt.Run, ranges []string) *store {
 	s := &store{r: r, t: r.Tape, rev: 1, kvs: map[string]*kvEntry{}, leases: map[int64]*lease{}, nextLease: 7000,
-		views: map[string]*viewTrack{}, ever: map[string]map[string]bool{}, modRev: map[string]int64{}, lastPut: map[string]map[string]string{}, prefixs: prefixes}
-	for _, p := range prefixes {
+		views: map[string]*viewTrack{}, ever: map[string]map[string]bool{}, modRev: map[string]int64{}, lastPut: map[string]map[string]string{}, ranges: ranges,
+		getsBy: map[int]map[string]int{}, loadsBy: map[int]map[string]int{}}
+	for _, p := range ranges {
 		s.ever[p] = map[string]bool{}
 		s.lastPut[p] = map[string]string{}
 		s.views[p] = newViewTrack()
@@ -149,13 +165,15 @@ func (s *store) header() *pb.ResponseHeader {
 	return &pb.ResponseHeader{ClusterId: 1, MemberId: 1, Revision: s.rev, RaftTerm: 2}
 }
 
-func (s *store) prefixOf(key string) string {
-	for _, p := range s.prefixs {
-		if strings.HasPrefix(key, p) {
-			return p
+// rangesOf: the watched ranges the key belongs to (a key may be in a prefix range and in an exact one).
+func (s *store) rangesOf(key string) []string {
+	var out []string
+	for _, p := range s.ranges {
+		if inRangeKey(p, key) {
+			out = append(out, p)
 		}
 	}
-	return ""
+	return out
 }
 
 func (s *store) view(rangeKey string) *viewTrack {
@@ -199,7 +217,7 @@ func (s *store) put(key, val string, leaseID int64) error {
 		l.keys[key] = true
 	}
 	s.hist = append(s.hist, histEv{rev: s.rev, key: key, val: val, create: e.create, version: e.version, lease: leaseID})
-	if p := s.prefixOf(key); p != "" {
+	for _, p := range s.rangesOf(key) {
 		s.ever[p][val] = true
 		s.lastPut[p][val] = key
 		s.modRev[p] = s.rev
@@ -234,7 +252,7 @@ func (s *store) deleteKeys(keys []string, why string) int {
 		}
 		delete(s.kvs, k)
 		s.hist = append(s.hist, histEv{rev: s.rev, del: true, key: k})
-		if p := s.prefixOf(k); p != "" {
+		for _, p := range s.rangesOf(k) {
 			s.modRev[p] = s.rev
 		}
 		if s.r.Tracing() {
@@ -329,11 +347,11 @@ func (s *store) rangeKVs(from, end string) []*mvccpb.KeyValue {
 	return out
 }
 
-// live: value of every live key under the prefix.
-func (s *store) live(prefix string) map[string]string {
+// live: value of every live key of the range.
+func (s *store) live(rangeKey string) map[string]string {
 	m := map[string]string{}
 	for k, e := range s.kvs {
-		if strings.HasPrefix(k, prefix) {
+		if inRangeKey(rangeKey, k) {
 			m[k] = e.val
 		}
 	}
@@ -411,6 +429,29 @@ type watcher struct {
 	sent     int
 	inSend   bool // parked in send: nobody is receiving right now
 	breakNow int  // fault requested by the workload: 1 cancel, 2 cancel+compacted, 3 close
+	owner    int  // the task that opened the stream (go-zero's watch goroutine receives from it)
+}
+
+func (s *store) taskAlive(id int) bool {
+	p := fmt.Sprintf("T%d ", id)
+	for _, a := range s.r.AliveTasks() {
+		if strings.HasPrefix(a, p) {
+			return true
+		}
+	}
+	return false
+}
+
+// cancelledStreamOwner: the task is a watch goroutine of go-zero whose (latest) stream has been
+// cancelled through its context, i.e. the last subscriber of its range was closed.  History
+// feature for naming a mismatch only.
+func (s *store) cancelledStreamOwner(task int) bool {
+	for i := len(s.watchers) - 1; i >= 0; i-- {
+		if w := s.watchers[i]; w.owner == task {
+			return w.ctx.Err() != nil
+		}
+	}
+	return false
 }
 
 func (w *watcher) kick() {
@@ -698,7 +739,7 @@ func (c *simClient) Watch(ctx context.Context, key string, opts ...clientv3.OpOp
 	s := c.s
 	op := clientv3.OpGet(key, opts...) // the option set of a watch is a subset of Get's
 	w := &watcher{s: s, id: len(s.watchers), ctx: ctx, from: key, end: string(op.RangeBytes()), next: op.Rev(),
-		ch: make(chan clientv3.WatchResponse), wake: make(chan struct{}, 1)}
+		ch: make(chan clientv3.WatchResponse), wake: make(chan struct{}, 1), owner: s.r.CurrentID()}
 	if w.next == 0 {
 		w.next = s.rev + 1
 	}
@@ -709,6 +750,11 @@ func (c *simClient) Watch(ctx context.Context, key string, opts ...clientv3.OpOp
 			s.view(w.from).dupWatch = true
 			s.r.Probe("duplicate-watch-stream")
 		}
+	}
+	if s.openSubs != nil && s.openSubs(w.from) == 0 {
+		// go-zero opens a stream for a range nobody is subscribed to (any more)
+		s.view(w.from).orphanWatch = true
+		s.r.Probe("watch-opened-without-subscriber")
 	}
 	s.watchers = append(s.watchers, w)
 	if s.r.Tracing() {
@@ -728,6 +774,12 @@ func (k *kvRemote) Range(ctx context.Context, in *pb.RangeRequest, _ ...grpc.Cal
 	s := k.c.s
 	s.r.Yield()
 	s.nGets++
+	if id := s.r.CurrentID(); true {
+		if s.getsBy[id] == nil {
+			s.getsBy[id] = map[string]int{}
+		}
+		s.getsBy[id][string(in.Key)]++
+	}
 	if s.faultsOn && s.getFail > 0 {
 		s.getFail--
 		if s.t.Bool() {
@@ -752,6 +804,20 @@ func (k *kvRemote) Range(ctx context.Context, in *pb.RangeRequest, _ ...grpc.Cal
 	}
 	kvs := s.rangeKVs(string(in.Key), string(in.RangeEnd))
 	s.noteSnapshot(string(in.Key), kvs)
+	if id := s.r.CurrentID(); true {
+		if s.loadsBy[id] == nil {
+			s.loadsBy[id] = map[string]int{}
+		}
+		s.loadsBy[id][string(in.Key)]++
+	}
+	for _, w := range s.watchers {
+		if w.from == string(in.Key) && w.sent > 0 && w.ctx.Err() != nil && s.taskAlive(w.owner) {
+			// the last subscriber of the range was closed and a new one is loading the range,
+			// but the old watch goroutine has not left yet
+			s.view(w.from).oldWatchAlive = true
+			s.r.Probe("snapshot-while-cancelled-watch-goroutine-alive")
+		}
+	}
 	resp := &pb.RangeResponse{Header: s.header(), Kvs: kvs, Count: int64(len(kvs))}
 	if s.r.Tracing() {
 		s.r.Logf("etcd get [%q,%q) -> %d kvs at rev %d", in.Key, in.RangeEnd, len(kvs), s.rev)
